@@ -3,7 +3,8 @@ package main
 import (
 	"fmt"
 	"math/bits"
-	"runtime"
+	"os"
+	"strconv"
 	"sync"
 
 	"github.com/openacid/low/bmtree"
@@ -28,6 +29,38 @@ func init() {
 		i := bmtree.PathToIndex(c05Full(h), w)
 		return L(I32(i), U(bmtree.IndexToPath(h, i)))
 	}
+	// widened: the accessors on IndexToPath's result, the order of two results, PathToIndexLoose on a full tree
+	Exec["bmtree.IndexToPath/fields"] = func(a []V) string {
+		w := bmtree.IndexToPath(a[0].I32(), a[1].I32())
+		return L(I32(bmtree.PathLen(w)), I32(bmtree.PathHeight(w)), U(bmtree.PathBits(w)), U(bmtree.PathMask(w)), Str(bmtree.PathStr(w)))
+	}
+	Exec["bmtree.IndexToPath/order"] = func(a []V) string {
+		h := a[0].I32()
+		wi, wj := bmtree.IndexToPath(h, a[1].I32()), bmtree.IndexToPath(h, a[2].I32())
+		switch {
+		case wi < wj:
+			return "-1"
+		case wi > wj:
+			return "1"
+		}
+		return "0"
+	}
+	Exec["bmtree.PathToIndexLoose/full"] = func(a []V) string {
+		h := a[0].I32()
+		w := c10Word(h, a[1])
+		i, has := bmtree.PathToIndexLoose(c05Full(h), w)
+		return L(I32(i), I32(has), U(bmtree.IndexToPath(h, i)))
+	}
+	Exec["bmtree.AllPaths/full"] = func(a []V) string {
+		h := a[0].I32()
+		T := c05Full(h)
+		ws := make([]uint64, 0, int(T))
+		for i := int32(0); i < T; i++ {
+			ws = append(ws, bmtree.IndexToPath(h, i))
+		}
+		return L(U64s(bmtree.AllPaths(T, 0, 1<<63)), U64s(ws))
+	}
+	Exec["bmtree.Height/full"] = func(a []V) string { return I32(bmtree.Height(c05Full(a[0].I32()))) }
 	Register("C05", genC05)
 }
 
@@ -110,7 +143,9 @@ func c05Shape(h int, idx int64) string {
 	// l = node length; the loop walks levels fixed..min(l, h-3)
 	loop := 0
 	end := "zero"
-	if l > h-3 {
+	if h <= 3 {
+		end = fmt.Sprintf("tbl%d", l) // the whole node comes from the table
+	} else if l > h-3 {
 		end = fmt.Sprintf("tbl%d", l-(h-3)) // the table supplies that many levels
 		if h-3-fixed > 0 {
 			loop = h - 3 - fixed
@@ -146,18 +181,21 @@ func c05WF(h int32, w uint64) bool {
 // returns (pairs tried, the first failing (h, idx) pairs).  Failing-input search only.
 func c05Sweep(lo, hi int) (uint64, [][2]int64) {
 	type chunk struct {
-		h      int32
-		from   int64
-		to     int64
+		h    int32
+		from int64
+		to   int64
 	}
 	var mu sync.Mutex
 	var bad [][2]int64
 	var total uint64
 	ch := make(chan chunk, 64)
 	var wg sync.WaitGroup
-	nw := runtime.NumCPU()
-	if nw > 16 {
-		nw = 16
+	// One worker by default: the harness is built with -cover and the coverage counters of the swept
+	// functions are shared cache lines; 4 or 16 workers were measured 8x SLOWER than 1 (20 ns per pair
+	// single-threaded, 85 s for all 2^32-33 pairs).  VERIF_C05_WORKERS overrides.
+	nw := 1
+	if v, err := strconv.Atoi(os.Getenv("VERIF_C05_WORKERS")); err == nil && v > 0 {
+		nw = v
 	}
 	for k := 0; k < nw; k++ {
 		wg.Add(1)
@@ -207,6 +245,26 @@ func c05Sweep(lo, hi int) (uint64, [][2]int64) {
 
 func genC05(g *Gen) {
 	seen := map[[2]int64]bool{}
+	last := map[int]int64{}
+	nfields := 0
+	order := func(h int, i, j int64) {
+		g.Stat("order")
+		key := ""
+		if i != 0 && j != 0 {
+			rel := "eq"
+			if i < j {
+				rel = "lt"
+			} else if i > j {
+				rel = "gt"
+			}
+			near := "far"
+			if d := i - j; d >= -1 && d <= 1 {
+				near = "adjacent"
+			}
+			key = fmt.Sprintf("order/%s/%s/%s", c05HB(h), rel, near)
+		}
+		g.Do("bmtree.IndexToPath/order", L(Int(h), I(i), I(j)), key)
+	}
 	emit := func(h int, idx int64, bucket string) {
 		n := int64(1)<<uint(h+1) - 1
 		if h < 0 || h > 30 || idx < 0 || idx >= n {
@@ -218,7 +276,26 @@ func genC05(g *Gen) {
 		}
 		seen[k] = true
 		g.Stat(bucket)
-		g.Do("bmtree.IndexToPath", L(Int(h), I(idx)), c05Shape(h, idx))
+		sh := c05Shape(h, idx)
+		g.Do("bmtree.IndexToPath", L(Int(h), I(idx)), sh)
+		// widened ops on the same input: always for small trees and boundary cases, 1 in 4 otherwise
+		if h <= 8 || bucket[0] == 'e' && h >= 13 && (nfields%3 == 0) || bucket[0] == 'r' && nfields%4 == 0 {
+			key := ""
+			if sh != "" {
+				key = "fields/" + sh
+			}
+			g.Do("bmtree.IndexToPath/fields", L(Int(h), I(idx)), key)
+		}
+		nfields++
+		// order: against the previous index emitted for this height, the neighbour and itself
+		if prev, ok := last[h]; ok && (h <= 6 || nfields%5 == 0) {
+			order(h, idx, prev)
+			order(h, idx, idx)
+			if idx+1 < n {
+				order(h, idx+1, idx)
+			}
+		}
+		last[h] = idx
 	}
 	inverse := func(h, l int, v uint64, bucket string) {
 		g.Stat(bucket)
@@ -227,7 +304,24 @@ func genC05(g *Gen) {
 			key = "inv/" + c05Shape(h, c05Rank(h, l, v))
 		}
 		g.Do("bmtree.PathToIndex/inverse", L(Int(h), c10Node(v, l)), key)
+		if key != "" {
+			key = "loose" + key[3:]
+		}
+		g.Do("bmtree.PathToIndexLoose/full", L(Int(h), c10Node(v, l)), key)
 	}
+
+	for h := 0; h <= 30; h++ {
+		g.Stat("height")
+		g.Do("bmtree.Height/full", L(Int(h)), fmt.Sprintf("height/%d", h))
+	}
+	g.Exhaust = append(g.Exhaust, "Height(2^(h+1)-1) for every h in 0..30")
+
+	hmax := g.N(10, 13)
+	for h := 0; h <= hmax; h++ {
+		g.Stat("allpaths-full")
+		g.Do("bmtree.AllPaths/full", L(Int(h)), fmt.Sprintf("allpaths/%d", h))
+	}
+	g.Exhaust = append(g.Exhaust, fmt.Sprintf("AllPaths(2^(h+1)-1, 0, 1<<63) next to [IndexToPath(h,i)]_i for every h in 0..%d", hmax))
 
 	// (1) exhaustive: heights 0..12 x every index (this includes the whole idxToPath table through the API)
 	for h := 0; h <= 12; h++ {
@@ -244,7 +338,17 @@ func genC05(g *Gen) {
 			}
 		}
 	}
-	g.Exhaust = append(g.Exhaust, "PathToIndex then IndexToPath: heights 0..8 x every node")
+	g.Exhaust = append(g.Exhaust, "PathToIndex / PathToIndexLoose then IndexToPath: heights 0..8 x every node")
+	// every ordered pair of indices of heights 0..4
+	for h := 0; h <= 4; h++ {
+		n := int64(1)<<uint(h+1) - 1
+		for i := int64(0); i < n; i++ {
+			for j := int64(0); j < n; j++ {
+				order(h, i, j)
+			}
+		}
+	}
+	g.Exhaust = append(g.Exhaust, "order of IndexToPath results: heights 0..4 x every ordered pair of indices; accessors on the result: heights 0..8 x every index")
 
 	// (2) boundaries for heights 13..30: first/last indices, 2^k + d with |d| <= h+1 (the shortcut compares
 	//     index-h with index: carries across bit k change diffbits), all-left / all-right spines
@@ -327,6 +431,9 @@ func genC05(g *Gen) {
 	lo, hi := 13, 21
 	if g.Thorough {
 		lo, hi = 0, 30
+	}
+	if v := os.Getenv("VERIF_C05_SWEEP"); v != "" { // experiments: "lo,hi"
+		fmt.Sscanf(v, "%d,%d", &lo, &hi)
 	}
 	total, bad := c05Sweep(lo, hi)
 	g.Stats["sweep-pairs"] = int(total)
